@@ -279,6 +279,18 @@ CLAIMED.update({
     ),
 })
 
+CLAIMED.update({
+    "C29": dict(
+        level="other",
+        note="Trusted: CPython ast; SQLite's documented LIKE (case-insensitive for ASCII, ESCAPE clause) and GLOB (case-sensitive, "
+        "'*' '?' '[' special) semantics; my reading of PS3.4 C.2.2.2 in expected(). NOT decided: equality of the returned "
+        "entity set with PS3.4 matching over all databases and identifiers (SQL semantics, optional keys, sequence matching); "
+        "the per-entity finding is listed in known_findings.json.",
+        technique="abstract evaluation of a dispatch if-chain over a finite (VR class x value shape) domain + per-path replacement-chain extraction before pattern sinks + shape matching of filter expressions (ast)",
+        ref="4/C29",
+    ),
+})
+
 PENDING = "designed in DESIGN.md section 4, checker not built yet - not claimed through a stub"
 
 NOT_APPLICABLE = {
